@@ -387,7 +387,7 @@ def gen_observe_seeded(r, k):
     pname = names[k % len(names)]
     spec, pools = gen_seeded_spec(r, pname)
     mode = ["product", "sequential", "custom"][(k // len(names)) % 3]
-    dask = (k // (3 * len(names))) % 2 == 1 if k >= 3 * len(names) else r.random() < 0.4
+    dask = r.random() < 0.5
     keys = sorted(pools)
     nk = r.choice([1, 2])
     ks = r.sample(keys, min(nk, len(keys)))
@@ -404,7 +404,7 @@ def gen_observe_seeded(r, k):
     for q in rev["parameters"]:
         q["values"] = list(reversed(q["values"]))
     rev["ambient"] = r.randrange(1, 100000)
-    rev["with_dask"] = not dask if r.random() < 0.3 else dask
+    rev["with_dask"] = not dask                    # every case takes both paths: the loop and dask (synchronous)
     rev["scheduler"] = "synchronous" if rev["with_dask"] else None
     calls.append(rev)
     thin = copy.deepcopy(base)
